@@ -1,5 +1,7 @@
 import Driver.Util
 import LiquidVerif.Model.Inherit
+import LiquidVerif.Model.InheritSpec
+import LiquidVerif.Model.InheritParse
 open Lean LiquidVerif.Inherit
 
 namespace Driver.C18
@@ -60,5 +62,37 @@ def handle (args : List Json) : Json :=
     | _, _, _, _ => jerr "bad-args"
   | _ => jerr "bad-args"
 
-def commands : List (String × (List Lean.Json → Lean.Json)) := [("inherit", handle)]
+/-- `["flatten", limit, [[tops]… leaf first], data]` → the declarative flattening of the chain -/
+def handleFlatten (args : List Json) : Json :=
+  match args with
+  | [lim, chain, data] =>
+    let ts := (asArr? chain).bind (mapM? (fun j => ((asArr? j).bind (mapM? parseTop)).map (fun x => (⟨x⟩ : Template))))
+    match asNat? lim, ts, parseData data with
+    | some lim, some ts, some data => outJson (flatten lim ts data)
+    | _, _, _ => jerr "bad-args"
+  | _ => jerr "bad-args"
+
+def parseTok (j : Json) : Option Tok := do
+  match ← asArr? j with
+  | [.str "t", s] => pure (.text (← asStr? s))
+  | [.str "o", n, r] => pure (.opn (← asStr? n) (← asBool? r))
+  | [.str "c", .null] => pure (.cls none)
+  | [.str "c", n] => pure (.cls (some (← asStr? n)))
+  | _ => none
+
+/-- `["endblock", limit, [tokens]]` → parse (`BlockTag.parse`), then render the template directly -/
+def handleEndblock (args : List Json) : Json :=
+  match args with
+  | [lim, toks] =>
+    match asNat? lim, (asArr? toks).bind (mapM? parseTok) with
+    | some lim, some toks =>
+      match parseToks toks with
+      | .error .syntax => Json.mkObj [("err", jstr "LiquidSyntaxError")]
+      | .error .inheritance => Json.mkObj [("err", jstr "TemplateInheritanceError")]
+      | .ok items => outJson (renderItems lim (stackOf []) 0 none [] [] items)
+    | _, _ => jerr "bad-args"
+  | _ => jerr "bad-args"
+
+def commands : List (String × (List Lean.Json → Lean.Json)) :=
+  [("inherit", handle), ("flatten", handleFlatten), ("endblock", handleEndblock)]
 end Driver.C18
